@@ -117,8 +117,16 @@ w('A second set of fresh sub-agents (brief: `notes/HARMLESS_BRIEF.md`), again gi
   '(`notes/ROBUSTNESS_BRIEF.md`): a table is regenerated by recognising the source shape *or* by probing the code over the '
   'table\'s finite domain (both must agree where both work), purely structural guards became advisories that widen the '
   'correspondence run, and correspondence streams compare what the statement constrains (error class and name, not locally '
-  'generated wording; behaviour of a rule, not its attribute layout).  `meta.json` keeps the first verdict under '
-  '`checks_first_run`.\n')
+  'generated wording; behaviour of a rule, not its attribute layout).  A second batch by new authors '
+  '(`notes/HARMLESS_BRIEF_2.md`: `h4` rename / move of private helpers, `h5` changed internal representation or control '
+  'flow, `h6` performance and robustness touches) then showed a second cause: harnesses and translators reached into '
+  'private names (`message._hcode`, `conn._cbCvtReply`, `marshal.invalid_obj_path_re`, ...) that a maintainer may rename; '
+  'one such rename even made an oracle report "failing inputs" through the harness\'s own `AttributeError`.  The rule since '
+  '(addendum of `notes/ROBUSTNESS_BRIEF.md`): names pinned by the unedited test suite may be used; every other internal is '
+  'found through public behaviour by a locator (`harness/c03_probe.py`, `c08_locate.py`, `c09_locate.py`, `c10_locate.py`, '
+  '...), the private name being only the fast path; a fault of the harness\'s own reach is a note and a skipped scenario, '
+  'never a violation; only when no stream of a property can run is the obligation broken.  `meta.json` keeps the first '
+  'verdict under `checks_first_run`.\n')
 hrows = []
 hq = ha = hfirst = 0
 for d in sorted(glob.glob(os.path.join(V, 'harmless/*/meta.json'))):
